@@ -66,13 +66,15 @@ where G: GraphRef + IntoEdges + IntoNodeIdentifiers + Visitable + NodeIndexable 
             let mut h: petgraph::graph::DiGraph<(), f32> = petgraph::graph::DiGraph::new();
             for _ in 0..g.node_bound() { h.add_node(()); }
             for x in g.node_identifiers() { for e in g.edges(x) { h.add_edge(petgraph::graph::NodeIndex::new(g.to_index(x)), petgraph::graph::NodeIndex::new(g.to_index(e.target())), *e.weight() as f32); } }
+            let exact32 = h.edge_weights().all(|w| w.abs() < 16_000_000.0);      // f32 holds these integers exactly
             let r32 = algo::bellman_ford(&h, petgraph::graph::NodeIndex::new(a[0] as usize));
             match algo::bellman_ford(g, n(a[0])) {
-                Err(_) => { let mut v = vec!["err".to_string()]; if r32.is_ok() { v.push("f32-twin-mismatch".into()); } v }
+                Err(_) => { let mut v = vec!["err".to_string()]; if exact32 && r32.is_ok() { v.push("f32-twin-mismatch".into()); } v }
                 Ok(p) => {
                     let mut v = vec![line("dist", &p.distances.iter().map(|d| fd(*d)).collect::<Vec<_>>()),
                                      line("pred", &p.predecessors.iter().map(|o| o.map(|x| g.to_index(x) as i64).unwrap_or(-1)).collect::<Vec<_>>())];
                     match r32 {
+                        _ if !exact32 => {}
                         Ok(q) => { if q.distances.iter().map(|d| if d.is_infinite() { INF } else { *d as i64 }).collect::<Vec<_>>() != p.distances.iter().map(|d| fd(*d)).collect::<Vec<_>>() { v.push("f32-twin-mismatch".into()); } }
                         Err(_) => v.push("f32-twin-mismatch".into()),
                     }
@@ -121,7 +123,27 @@ where G: GraphRef + petgraph::visit::IntoNodeReferences + IntoEdgeReferences + I
         vec![line("msn", &ns), line("mse", &es)]
     };
     Some(match q.0.as_str() {
-        "kruskal" => collect(&mut algo::min_spanning_tree(g)),
+        "kruskal" => {
+            let mut v = collect(&mut algo::min_spanning_tree(g));
+            // NaN scores are ordered last: on an f64 copy in which every edge outside this forest weighs NaN, Kruskal must
+            // return a forest of the same finite total weight and never a NaN edge
+            let forest: Vec<(usize, usize, i64)> = algo::min_spanning_tree(g).filter_map(|el| match el { Element::Edge { source, target, weight } => Some((source, target, weight)), _ => None }).collect();
+            let total: i64 = forest.iter().map(|e| e.2).sum();
+            let ids: Vec<usize> = g.node_references().map(|n| g.to_index(petgraph::visit::NodeRef::id(&n))).collect();
+            let mut left = forest.clone();
+            let mut h: petgraph::graph::UnGraph<(), f64> = petgraph::graph::UnGraph::new_undirected();
+            for _ in 0..g.node_bound() { h.add_node(()); }
+            for e in g.edge_references() {
+                let (s, t, w) = (g.to_index(e.source()), g.to_index(e.target()), *e.weight());
+                let pos = |x: usize| ids.iter().position(|y| *y == x).unwrap_or(usize::MAX);
+                let k = left.iter().position(|f| f.2 == w && ((f.0 == pos(s) && f.1 == pos(t)) || (f.0 == pos(t) && f.1 == pos(s))));
+                let wf = match k { Some(i) => { left.remove(i); w as f64 } None => f64::NAN };
+                h.add_edge(petgraph::graph::NodeIndex::new(s), petgraph::graph::NodeIndex::new(t), wf);
+            }
+            let t2: f64 = algo::min_spanning_tree(&h).filter_map(|el| match el { Element::Edge { weight, .. } => Some(weight), _ => None }).sum();
+            if left.is_empty() && !(t2 == total as f64) { v.push("nan-twin-mismatch".into()); }
+            v
+        }
         "prim" => collect(&mut algo::min_spanning_tree_prim(g)),
         _ => return None,
     })
@@ -243,6 +265,12 @@ pub fn gen(stream: &str, seed: u64, n: usize, out: &mut Out) {
             for i in 0..n { for j in i + 1..n { if j == i + 1 || r.chance(45) { edges.push((i, j, -(1i64 << (n - 1 - i).min(12)) + (j - i) as i64 - r.below(3) as i64)); } } }
             a = AbsGraph { directed: true, n, edges };
             out.stat("kind_spread_dag");
+        } else if stream == "C11" && r.chance(12) {
+            // non-negative costs near the top of i32: path sums overflow although the shortest distances mostly fit; the i32
+            // instances (spfa, floyd_warshall) must skip the overflowing candidates (overflowing_add), not wrap them
+            let huge: [i64; 6] = [1 << 30, (1 << 30) + 7, (1i64 << 31) - 1, (1i64 << 31) - 9, 1_500_000_000, 2_000_000_011];
+            for e in a.edges.iter_mut() { e.2 = if r.chance(50) { huge[r.below(6)] } else { r.below(10) as i64 }; }
+            out.stat("kind_costs_near_i32_max");
         } else if stream == "C11" && !a.directed && r.chance(70) {
             // undirected graphs: a negative edge is already a negative cycle; keep most of them non-negative
             for e in a.edges.iter_mut() { e.2 = e.2.abs(); }
